@@ -411,6 +411,8 @@ class Expander(object):
             f.node.body = self.expand_body(f, f.node.body, names, [f.qualname], 0, owner=f)
         P.inlined_sites = dict(self.inlined_sites)
         self.propagate_literals()
+        self.propagate_struct_objects()
+        self.propagate_aliases()
         # a helper all of whose references were replaced is dead code in this view: drop it from the tables
         absorbed = []
         for q, n in self.top_sites.items():
@@ -488,6 +490,150 @@ def _propagate(self):
 
 
 Expander.propagate_literals = _propagate
+
+
+def _propagate_struct(self):
+    """NAME = struct.Struct('<I') at module level:  NAME.pack(x) -> struct.pack('<I', x), NAME.unpack(b) -> struct.unpack('<I', b),
+    NAME.size -> struct.calcsize('<I')  (the rules read struct formats at the pack / unpack calls)"""
+    P = self.P
+    for m in P.modules.values():
+        objs = {}
+        for st in m.tree.body:
+            if isinstance(st, ast.Assign) and len(st.targets) == 1 and isinstance(st.targets[0], ast.Name) and isinstance(st.value, ast.Call) \
+                    and isinstance(st.value.func, ast.Attribute) and st.value.func.attr == 'Struct' and st.value.args and isinstance(st.value.args[0], ast.Constant):
+                objs[st.targets[0].id] = st.value.args[0]
+        if not objs:
+            continue
+
+        class T(ast.NodeTransformer):
+            def visit_Call(self, n):
+                self.generic_visit(n)
+                f = n.func
+                if isinstance(f, ast.Attribute) and isinstance(f.value, ast.Name) and f.value.id in objs and f.attr in ('pack', 'unpack', 'unpack_from', 'pack_into'):
+                    new = ast.Call(func=ast.Attribute(value=ast.Name(id='struct', ctx=ast.Load()), attr=f.attr, ctx=ast.Load()),
+                                   args=[copy.deepcopy(objs[f.value.id])] + n.args, keywords=n.keywords)
+                    return ast.fix_missing_locations(ast.copy_location(new, n))
+                return n
+
+            def visit_Attribute(self, n):
+                self.generic_visit(n)
+                if isinstance(n.value, ast.Name) and n.value.id in objs and n.attr == 'size' and isinstance(n.ctx, ast.Load):
+                    new = ast.Call(func=ast.Attribute(value=ast.Name(id='struct', ctx=ast.Load()), attr='calcsize', ctx=ast.Load()),
+                                   args=[copy.deepcopy(objs[n.value.id])], keywords=[])
+                    return ast.fix_missing_locations(ast.copy_location(new, n))
+                return n
+        for f in P.functions.values():
+            if f.module is m and f.parent is None:
+                f.node.body = [T().visit(st) for st in f.node.body]
+
+
+Expander.propagate_struct_objects = _propagate_struct
+
+
+def _propagate_aliases(self):
+    """A local bound once to an attribute of self (or to a bound method of the object an attribute holds) is replaced by
+    that expression at every use that no rebinding of the attribute can reach:
+        connected = self.__connectedNodes ... `node in connected`      ->  `node in self.__connectedNodes`
+        send = self.__transport.send      ... `send(node, msg)`        ->  `self.__transport.send(node, msg)`
+    In-place mutation of the held object is the same object under either name; only a rebinding of the attribute between
+    the definition and the use would make the two differ, and such uses are left alone."""
+    from . import cfg as cfgmod
+    P = self.P
+    for f in list(P.functions.values()):
+        sn = f.self_name
+        if not sn or f.parent is not None:
+            continue
+        # candidates: single-store locals whose value is self.a or self.a.b (no call)
+        stores = {}
+        for n in ast.walk(f.node):
+            if isinstance(n, ast.Name) and isinstance(n.ctx, (ast.Store, ast.Del)):
+                stores[n.id] = stores.get(n.id, 0) + 1
+        cands = {}
+        for n in ast.walk(f.node):
+            if isinstance(n, ast.Assign) and len(n.targets) == 1 and isinstance(n.targets[0], ast.Name) and stores.get(n.targets[0].id) == 1 \
+                    and n.targets[0].id not in f.params:
+                v = n.value
+                root = v
+                depth = 0
+                while isinstance(root, ast.Attribute):
+                    root = root.value
+                    depth += 1
+                if isinstance(root, ast.Name) and root.id == sn and 1 <= depth <= 2 and isinstance(v, ast.Attribute):
+                    attr = v.attr if depth == 1 else v.value.attr
+                    if depth == 2:
+                        # only a bound method of the object the attribute holds (self.__transport.send), not a value stored in it
+                        types = P.field_types(f.owner_cls).get(attr, set()) if f.owner_cls is not None else set()
+                        if not any(tn in P.classes and P.lookup_method(P.classes[tn], v.attr) is not None for tn in types):
+                            continue
+                    cands[n.targets[0].id] = (n, v, attr)
+        if not cands:
+            continue
+        try:
+            g = cfgmod.CFG(f, P)
+        except Exception:
+            continue
+        # nodes that may rebind an attribute
+        rebind_nodes = {}
+        for node in g.nodes:
+            if node.ast is None or node.kind not in ('stmt', 'cond', 'iter', 'with'):
+                continue
+            hdr = node.ast
+            if node.kind == 'iter':
+                hdr = ast.Tuple(elts=[node.ast.target, node.ast.iter], ctx=ast.Load())
+            elif node.kind == 'with':
+                hdr = ast.Tuple(elts=[i.context_expr for i in node.ast.items], ctx=ast.Load())
+            attrs = set()
+            for x in ast.walk(hdr):
+                if isinstance(x, (ast.Assign, ast.AugAssign, ast.Delete)):
+                    tg = x.targets if isinstance(x, (ast.Assign, ast.Delete)) else [x.target]
+                    for t in tg:
+                        for y in ast.walk(t):
+                            a_ = P.self_attr(y, sn)
+                            if a_ and isinstance(getattr(y, 'ctx', None), (ast.Store, ast.Del)):
+                                attrs.add(a_)
+                            if isinstance(y, ast.Subscript) and P.self_attr(y.value, sn) == '__dict__':
+                                attrs.add('*')
+                if isinstance(x, ast.Call):
+                    r = P.resolve_call(f, x)
+                    if r.kind == 'method':
+                        for t in r.targets:
+                            attrs |= P.rebinds(t)
+            for a_ in attrs:
+                rebind_nodes.setdefault(a_, set()).add(node.id)
+        subst = {}
+        for name, (asg, val, attr) in cands.items():
+            dn = g.nodes_for_ast(asg)
+            if not dn:
+                continue
+            d = dn[0].id
+            rb = rebind_nodes.get(attr, set()) | rebind_nodes.get('*', set())
+            after_def = g.reachable_from(d)
+            danger = set()
+            for r_ in rb:
+                if r_ in after_def:
+                    # everything that executes after the rebinding node (the node itself only if it lies on a cycle)
+                    for dst, lab in g.nodes[r_].succ:
+                        danger |= g.reachable_from(dst)
+            subst[name] = (val, danger, g)
+        if not subst:
+            continue
+
+        class T(ast.NodeTransformer):
+            def __init__(self):
+                self.cur = None
+
+            def visit_Name(self, n):
+                if isinstance(n.ctx, ast.Load) and n.id in subst:
+                    val, danger, g_ = subst[n.id]
+                    nodes = g_.nodes_for_ast(n)
+                    if nodes and all(x.id not in danger for x in nodes):
+                        return ast.copy_location(copy.deepcopy(val), n)
+                return n
+        f.node.body = [T().visit(st) for st in f.node.body]
+        P._cfgs.pop(f.qualname, None)
+
+
+Expander.propagate_aliases = _propagate_aliases
 
 
 class _PseudoFunc(object):
